@@ -290,7 +290,13 @@ def c03_leg(chk, tier, seed):
         r["lang"] = "c"
         return r
     results = pmap(one, range(nprog + ncpp))
-    stats = {"programs": 0, "programs_cpp": 0, "calls": 0, "objects_tracked": 0, "callbacks_released": 0, "skipped": 0}
+    # the same kind of histories driven from Rust as a foreign caller would, interpreted by Miri: the macro's own glue under
+    # Stacked Borrows / validity / leak checking (no C compiler's view of the types involved)
+    nmiri = 400 if thorough else 40
+    mres = run_miri_programs(seed + 7900, nmiri, "c03", profile=prof, ncalls=(40 if thorough else 25),
+                             flags_for=lambda i: "-Zmiri-tree-borrows" if i % 4 == 3 else "")
+    results += mres
+    stats = {"programs": 0, "programs_cpp": 0, "programs_miri": 0, "calls": 0, "objects_tracked": 0, "callbacks_released": 0, "skipped": 0}
     hist = set()
     for r in results:
         if r["status"] == "skip":
@@ -301,13 +307,14 @@ def c03_leg(chk, tier, seed):
             continue
         stats["programs"] += 1
         stats["programs_cpp"] += 1 if r.get("lang") == "cpp" else 0
+        stats["programs_miri"] += 1 if r.get("lang") == "miri" else 0
         stats["calls"] += r["calls"]
         got = r.get("observed_lines") or []
         errs, nobj, ncb = conservation(got)
         stats["objects_tracked"] += nobj
         stats["callbacks_released"] += ncb
         hist.add("".join({"C": "c", "N": "n", "D": "d", "R": "r"}.get(l[:1], "") for l in got if l[:4] in ("CALL", "NEW ", "DROP", "CBDR")))
-        mem = [x for x in (r.get("reports") or []) if any(w in x for w in ("double-free", "use-after", "overflow", "leak", "free", "Invalid", "bytes in", "bad-free", "alloc-dealloc"))]
+        mem = [x for x in (r.get("reports") or []) if any(w in x for w in ("double-free", "use-after", "overflow", "leak", "free", "Invalid", "bytes in", "bad-free", "alloc-dealloc", "miri-"))]
         if errs or mem:
             chk.violation("api-%s-p%d" % (r.get("lang"), r["idx"]), "generated-%s-API history p%d: %s" % (r.get("lang", "c").upper(), r["idx"], (errs + mem)[0]),
                           dict(witness(r), conservation_errors=errs[:10], memory_reports=mem))
@@ -379,3 +386,82 @@ def run_cpp_program(seed, idx, tag, profile=None, ncalls=40, stds=("c++17", "c++
         except OSError:
             pass
     return res
+
+
+# --------------------------------------------------------------------------
+# Miri leg: the macro-expanded bridge driven from Rust as a foreign caller would (emit_rsdrv), interpreted by Miri
+# --------------------------------------------------------------------------
+
+MIRI_PATTERNS = [(r"error: Undefined Behavior: ([^\n]*)", "miri-ub"), (r"error: (memory leaked[^\n]*)", "miri-leak"),
+                 (r"error: (abnormal termination[^\n]*)", "miri-abort"), (r"(panicked at [^\n]*\n[^\n]*)", "panic"),
+                 (r"error: (deadlock[^\n]*)", "miri-deadlock")]
+
+
+def miri_crate(tag):
+    import shutil
+    import common
+    base = common.instantiate_crate("mirileg")
+    d = common.cache_dir("crates", "mirileg-%s-%s" % (common.repo_key(), tag))
+    for f in ("Cargo.toml", "Cargo.lock"):
+        shutil.copy(os.path.join(base, f), os.path.join(d, f))
+    os.makedirs(os.path.join(d, "src"), exist_ok=True)
+    open(os.path.join(d, "src", "main.rs"), "w").write("fn main() {}\n")
+    b = os.path.join(d, "src", "bin")
+    shutil.rmtree(b, ignore_errors=True)
+    os.makedirs(b)
+    return d
+
+
+def miri_run(crate, binname, flags="", timeout=900):
+    import common
+    cmd = ["cargo", "+" + common.NIGHTLY, "miri", "run", "--offline", "--quiet", "--manifest-path", os.path.join(crate, "Cargo.toml"),
+           "--target-dir", common.repo_target("mirileg"), "--bin", binname]
+    return run(cmd, env={"MIRIFLAGS": flags}, timeout=timeout)
+
+
+def run_miri_programs(seed, n, tag, profile=None, ncalls=25, flags_for=lambda i: ""):
+    """n generated bridges, each with its scripted history emitted as a Rust driver inside the bridge modules, interpreted by Miri.
+    -> list of dict(status=ok|violation|skip|inconclusive, ...)"""
+    import emit_rsdrv
+    crate = miri_crate(tag)
+    progs = []
+    for i in range(n):
+        prog, sc = make_program(seed, i, profile, ncalls)
+        res = {"idx": i, "prog": prog, "script": sc, "calls": sum(1 for s in sc.steps if s["kind"] == "call"), "events": len(sc.expected),
+               "bin": "%s_p%d" % (tag, i), "dir": crate, "lang": "miri"}
+        try:
+            prog.epilogue = emit_rsdrv.RsEmitter(sc).emit()
+        except emit_rsdrv.Unsupported as e:
+            res.update(status="skip", stage="emit", detail="driver emitter: %s" % (e,))
+            progs.append(res)
+            continue
+        src = os.path.join(crate, "src", "bin", res["bin"] + ".rs")
+        open(src, "w").write(emit_rust.emit_program(prog, bodies=True))
+        res["src"] = src
+        progs.append(res)
+    todo = [r for r in progs if "status" not in r]
+
+    def one(r):
+        rc, out, err = miri_run(crate, r["bin"], flags_for(r["idx"]))
+        got = out.splitlines()
+        r["observed_lines"] = got
+        r["observed_events"] = len(got)
+        reps = []
+        for pat, label in MIRI_PATTERNS:
+            for m in re.finditer(pat, err):
+                reps.append("%s: %s" % (label, m.group(1).strip()[:300]))
+        diff = first_diff(r["script"].expected + ["END"], got)
+        if rc == -999:
+            r.update(status="inconclusive", stage="miri", detail="watchdog")
+        elif "error: unsupported operation" in err or "could not compile" in err or re.search(r"^error(\[E\d+\])?:", err, re.M) and not reps and not got:
+            r.update(status="inconclusive", stage="miri-build", detail=err[-1500:])
+        elif diff or reps or rc != 0:
+            r.update(status="violation", stage="miri", rc=rc, diff=diff, reports=reps, stderr=err[-4000:],
+                     context=got[max(0, (diff[0] if diff else len(got)) - 6):(diff[0] if diff else len(got)) + 3])
+        else:
+            r.update(status="ok")
+        return r
+    if todo:
+        one(todo[0])                       # builds the dependencies once; the rest only compile their own bin and interpret
+        pmap(one, todo[1:])
+    return progs
